@@ -80,6 +80,47 @@ let lane_url args =
       (match p.p_scope with Base -> "base" | OneLevel -> "one" | Subtree -> "sub") (hex_of_bytes p.p_filter)
       (String.concat ";" (List.sort compare (List.map ext_str p.p_exts)))
 
+(* ---- requests (C02) ---- *)
+let rec canon (t : tree) : tree =
+  match t with
+  | P _ -> t
+  | C (c, id, ts) ->
+      let ts = List.map canon ts in
+      let ts = if c = Universal && int_of_n id = 17 then List.sort (fun a b -> compare (show_tree a) (show_tree b)) ts else ts in
+      C (c, id, ts)
+let split_on c s = if s = "~" then [] else String.split_on_char c s
+let hexlist s = List.map bytes_of_hex (split_on ',' s)
+let parse_ctrl s = match String.split_on_char '.' s with
+  | [o; c; v] -> { c_oid = bytes_of_hex o; c_crit = (c = "1"); c_val = (if v = "none" then None else Some (bytes_of_hex v)) }
+  | _ -> failwith "ctrl"
+let parse_mods s = match String.split_on_char ':' s with
+  | ["m"; cs; tmo; opts] ->
+      { m_ctrls = (if cs = "none" then None else Some (List.map parse_ctrl (split_on ';' cs)));
+        m_timeout = (if tmo = "none" then None else Some (z_of_decimal tmo));
+        m_opts = (if opts = "none" then None else match String.split_on_char '.' opts with
+                  | [d; ty; tl; sl] -> Some { deref = z_of_decimal d; typesonly = (ty = "1"); timelimit = z_of_decimal tl; sizelimit = z_of_decimal sl }
+                  | _ -> failwith "opts") }
+  | _ -> failwith "mods"
+let parse_av s = match String.split_on_char '=' s with [a; vs] -> (bytes_of_hex a, hexlist vs) | _ -> failwith "av"
+let parse_op s = match String.split_on_char '/' s with
+  | ["bind"; dn; pw] -> OBind (bytes_of_hex dn, bytes_of_hex pw)
+  | ["sasl"] -> OSaslExternal
+  | ["search"; b; sc; f; at] -> OSearch (bytes_of_hex b, z_of_decimal sc, bytes_of_hex f, hexlist at)
+  | ["add"; dn; avs] -> OAdd (bytes_of_hex dn, List.map parse_av (split_on ';' avs))
+  | ["compare"; dn; a; v] -> OCompare (bytes_of_hex dn, bytes_of_hex a, bytes_of_hex v)
+  | ["delete"; dn] -> ODelete (bytes_of_hex dn)
+  | ["modify"; dn; ms] -> OModify (bytes_of_hex dn, List.map (fun m -> match String.split_on_char '@' m with
+        | [k; av] -> let (a, vs) = parse_av av in ((z_of_decimal k, a), vs) | _ -> failwith "mod") (split_on ';' ms))
+  | ["moddn"; dn; rdn; d; ns] -> OModDn (bytes_of_hex dn, bytes_of_hex rdn, d = "1", (if ns = "none" then None else Some (bytes_of_hex ns)))
+  | ["ext"; n; v] -> OExtended (bytes_of_hex n, (if v = "none" then None else Some (bytes_of_hex v)))
+  | ["abandon"; id] -> OAbandon (z_of_decimal id)
+  | ["unbind"] -> OUnbind
+  | _ -> failwith ("op " ^ s)
+let lane_req args =
+  let rec pairs = function m :: o :: r -> (parse_mods m, parse_op o) :: pairs r | _ -> [] in
+  let outs = run_calls true true (cleared, z_of_int 1) (pairs args) in
+  String.concat " | " (List.map (function Some t -> show_tree (canon t) | None -> "local-error") outs)
+
 let dispatch lane args =
   match lane with
   | "parse" -> lane_parse args
@@ -94,6 +135,7 @@ let dispatch lane args =
   | "result" -> lane_result args
   | "helpers" -> lane_helpers args
   | "url" -> lane_url args
+  | "req" -> lane_req args
   | _ -> "UNKNOWN-LANE"
 
 let () =
